@@ -123,9 +123,9 @@ def main(argv):
                     if kind == "scr":
                         stats["scr"] = stats.get("scr", 0) + 1
                     im, mo, sp = fields(impl), fields(model), fields(spec)
-                    agrees = im.get("P") == mo.get("P") and im.get("R") == mo.get("R") and rpnorm(im.get("RP")) == rpnorm(mo.get("RP")) and "BADTOK" not in model
+                    agrees = im.get("P") == mo.get("P") and im.get("R") == mo.get("R") and rpnorm(im.get("RP")) == rpnorm(mo.get("RP")) and im.get("PC") == mo.get("PC") and "BADTOK" not in model
                     if not agrees:
-                        corr_fail.append({"input": inp, "printed": text_of(im.get("P")), "implementation": "P=%s ;; R=%s ;; RP=%s" % (im.get("P"), im.get("R"), im.get("RP")),
+                        corr_fail.append({"input": inp, "printed": text_of(im.get("P")), "implementation": "P=%s ;; R=%s ;; RP=%s ;; PC=%s" % (im.get("P"), im.get("R"), im.get("RP"), im.get("PC")),
                                           "model": model, "what": "printed bytes (SexpString vs print) / parse of the printed text (vs lex_all + parse_whole) / the REPL reader on the printed text (RP, vs parse_pieces over its lines)"})
                     if mo.get("EV", "-") != "-" and im.get("E") != mo["EV"]:
                         agrees = False
@@ -139,6 +139,8 @@ def main(argv):
                     fails = []
                     if sp.get("R", "-") != "-" and im.get("R") != sp["R"]:
                         fails.append(("data route: parse of (str v)", im.get("R"), sp["R"]))
+                    if sp.get("R", "-") != "-" and im.get("PC") != sp["R"]:
+                        fails.append(("data route through the Go API for incremental input: the printed text cut into pieces at runes %s (ResetAddNewInput + NewInput)" % toks[2], im.get("PC"), sp["R"]))
                     if sp.get("R", "-") != "-" and im.get("RP") != sp["R"]:
                         fails.append(("data route at the REPL front end: the printed text typed line by line", im.get("RP"), sp["R"]))
                     if sp.get("E", "-") != "-":
@@ -153,7 +155,7 @@ def main(argv):
                         rejected = got in ("ERROR",) or (got or "").startswith("E")
                         if agrees and rejected and has_unreadable_escape(printed):
                             fid = "quote-escapes-unreadable"
-                        elif agrees and route.startswith("data") and any(odd_symbol(nm) for nm in symbols_of(toks[2:])):
+                        elif agrees and route.startswith("data") and any(odd_symbol(nm) for nm in symbols_of(toks[3:])):
                             fid = "symbol-no-printed-syntax"
                         prop_fail.append({"input": inp, "printed": printed, "route": route, "implementation": got, "specification": want,
                                           "model": mo.get("R"), "agrees_with_model": agrees, "finding": fid,
